@@ -1,44 +1,45 @@
 //! C14 — reservoir sampling: right size, real elements only, reproducible, mode-stable.
 //!
-//! Requests
+//! Requests (formats: see `lean/IbModel/Driver/D14.lean`)
 //!   `RESERVOIR <k> <seed> <values> <sizes> <tree…>`  → `OK <sample>`
 //!       the REAL `PriorityReservoir` driven directly: `values` cut into leaves of the given `sizes`,
-//!       each leaf `L<i>` = `create` + `add_input…`, `B<i>` = `build_from_group`, `N a b` = `merge(a, b)`,
-//!       then `finish`.
-//!   `SAMPLEPIPE <gvec|gflat|kvec|kflat> <k> <seed> <parts> <rows>` → `seq=<out> p<n>=<out> …`
-//!       the four REAL entry points (`sample_reservoir_vec`, `sample_reservoir`,
-//!       `sample_values_reservoir_vec`, `sample_values_reservoir`) collected with `collect_seq` and with
-//!       `collect_par(None, Some(n))` for every listed partition count. Keyed outputs are stably sorted by key
-//!       (hash order is not part of the answer); the order inside a sample IS part of the answer.
-//!   `SAMPLEFILT <entry> <k> <seed> <parts> <pred> <rows>` → same answer format
-//!       the same four entry points with `.filter(pred)` between `from_vec` and the sample, so that in parallel
-//!       mode the partitions the combiner sees are skewed or empty (`pred`: `all`, `none`, `lt:<c>`, `ge:<c>`,
-//!       `mod:<m>:<r>`; on the element, or on the value of a keyed row).
-//! The model must reproduce every sample exactly (elements and order).
+//!       each leaf `L<i>` = `create` + `add_input…`, `B<i>` = `build_from_group`, `N a b` = `merge(a, b)`, `finish`.
+//!   `RESSTATE …` same arguments → the accumulator itself before `finish` (hook `PRAcc::verif_slots`):
+//!       k, seq, alive, heap length, and every store slot (tombstone / priority BIT PATTERN : seq : value).
+//!   `SAMPLEPIPE <gvec|gflat|kvec|kflat> <k> <seed> <pre> <plan> <runs> <rows>` → `seq=<out> p<n>=<out> …`
+//!       the four REAL entry points collected with `collect_seq` and `collect_par(None, Some(n))`; `pre` is the
+//!       stateless op between `from_vec` and the sample; `plan` what `run_collect` executed (hook `on_plan`);
+//!       every run carries the chunk sizes the REAL `VecOps::split` returned for it.
+//!   `SAMPLEJOIN …` the same with the sample feeding `join_inner` (a join side is executed un-planned).
+//!   `SAMPLEGBK <k> <seed> <order1> <order2>` sample after a hash-ordered barrier, run twice.
+//!   `ORDF64 <a> <b>` `OrdF64::cmp` on two bit patterns.
+//! Oracle-only runs (no model request): 70 000 rows in one accumulator; `collect_par(None, None)`; `String` / struct
+//! element types; the checkpointing copies of the executors (`checkpointed-run-differs-from-plain-run`, unlisted).
+//! The model must reproduce every answer exactly (elements and order).
 //!
 //! Oracle (does not go through the model): size = min(k, n) (per key: min(k, n_key), every key present once),
-//! sub-multiset of the input (per key; with a filter: of the KEPT input), same-mode reproducibility (every run
-//! is executed twice), and the documented stability: the sequential sample equals the sample of every
-//! partition count. A cross-mode difference is attributed to the known finding's signatures ONLY where the
-//! restarted random stream can explain it; two consequences that hold in spite of / because of that
-//! mechanism, and the relation between the flattened and the Vec entry points, have signatures of their own,
-//! which are NOT listed as known:
-//!   * `flattened-sample-differs-from-vec-form` — `sample_reservoir` / `sample_values_reservoir` must return the
-//!     rows of the `_vec` form of the same run, flattened in order (Lean: `sampleFlatSeq_eq`, `sampleFlatPar_eq`);
-//!   * `single-partition-run-differs-from-sequential` — a run that the engine executes on ONE partition
-//!     (requested count <= 1, or a source of <= 1 rows) must equal the sequential run
-//!     (Lean: `mode_stable_single_partition_partial`, `keyed_mode_stable_single_partition_partial`, `filter_…`);
-//!   * `sample-differs-from-seq-and-is-not-last-k-at-singleton-partitions` — with at least as many partitions
-//!     as source rows every partition holds <= 1 row and the restarted stream yields exactly the last k (kept)
-//!     inputs, per key (Lean: `samplePar_singleton_partitions`, `sampleKeyedPar_singleton_partitions`,
-//!     `sample(Keyed)FilterPar_singleton_partitions`); a run there that differs from the sequential sample AND
-//!     from that prediction is not the known finding.
+//! sub-multiset of the (kept) input, same-mode reproducibility (every run is executed twice), independence of
+//! the element type, and the documented stability: the sequential sample equals the sample of every partition
+//! count. A cross-mode difference is attributed to the known finding's signatures ONLY where the restarted
+//! random stream can explain it; the following signatures are NOT listed as known:
+//!   * `pipeline-sample-differs-from-combiner-on-engine-chunks` — every run's output must equal the REAL
+//!     `PriorityReservoir` driven by hand over the chunks the real split produced, in the way the executed plan
+//!     prescribes (global: per-chunk fold, left-comb merge; lifted per-key plan: per-chunk per-key fold merged
+//!     into a fresh `create()` in chunk order; un-lifted plan: one `build_from_group` per key);
+//!   * `flattened-sample-differs-from-vec-form`, `single-partition-run-differs-from-sequential`,
+//!     `sample-differs-from-seq-and-is-not-last-k-at-singleton-partitions` (as in round 2);
+//!   * `unlifted-keyed-run-differs-from-sequential` — on the un-lifted plan (join side) the per-key sample of
+//!     every partition count IS the sequential one (Lean: `sampleKeyedUnlifted_lookup_eq_seq`);
+//!   * `sample-depends-on-element-type` — `String` / struct elements and `String` keys give the i64 run's sample.
 
 use crate::ctx::{Ctx, guarded};
 use ironbeam::collection::LiftableCombiner;
 use ironbeam::combiners::PriorityReservoir;
-use ironbeam::{CombineFn, Pipeline, from_vec};
+use ironbeam::type_token::vec_ops_for;
+use ironbeam::{CombineFn, OrdF64, Pipeline, RFBound, from_vec};
 use std::collections::BTreeMap;
+use std::hash::Hash;
+use std::sync::{Arc, Mutex};
 
 /* ------------------------------------------------------------------ encoding */
 
@@ -125,49 +126,71 @@ where
     }
 }
 
-fn real_reservoir(k: usize, seed: u64, parts: &[Vec<i64>], sh: &Shape) -> Result<Vec<i64>, String> {
+/// `(finished sample, state dump before finish)`
+fn real_reservoir(k: usize, seed: u64, parts: &[Vec<i64>], sh: &Shape) -> Result<(Vec<i64>, String), String> {
     guarded(|| {
         let c = PriorityReservoir::<i64>::new(k, seed);
         let acc = eval_shape(&c, parts, sh);
-        c.finish(acc)
+        let (ak, seq, alive, heap) = acc.verif_counters();
+        let slots = acc.verif_slots();
+        let store = if slots.is_empty() {
+            "-".to_string()
+        } else {
+            slots.iter().map(|s| match s { None => "x".to_string(), Some((b, q, v)) => format!("{b}:{q}:{v}") }).collect::<Vec<_>>().join(",")
+        };
+        let state = format!("k={ak} seq={seq} alive={alive} heap={heap} store={store}");
+        (c.finish(acc), state)
     })
 }
 
-fn one_reservoir(cx: &mut Ctx, k: usize, seed: u64, parts: &[Vec<i64>], sh: &Shape) {
+/// `state`: also emit the `RESSTATE` request for the same evaluation
+fn one_reservoir_opt(cx: &mut Ctx, k: usize, seed: u64, parts: &[Vec<i64>], sh: &Shape, state: bool) {
     let vals: Vec<i64> = parts.iter().flatten().copied().collect();
     let sizes: Vec<usize> = parts.iter().map(Vec::len).collect();
     let mut toks = vec![];
     sh.enc(&mut toks);
-    let req = format!("RESERVOIR {k} {seed} {} {} {}", enc_ints(&vals, ","), enc_usizes(&sizes), toks.join(" "));
+    let args = format!("{k} {seed} {} {} {}", enc_ints(&vals, ","), enc_usizes(&sizes), toks.join(" "));
     let r1 = real_reservoir(k, seed, parts, sh);
     let r2 = real_reservoir(k, seed, parts, sh);
-    let ans = match &r1 { Ok(s) => format!("OK {}", enc_ints(s, ",")), Err(_) => "PANIC".to_string() };
+    let ans = match &r1 { Ok((s, _)) => format!("OK {}", enc_ints(s, ",")), Err(_) => "PANIC".to_string() };
     // the leaves actually used by the tree (each exactly once in generated cases)
     let mut used = vec![];
     sh.leaves(&mut used);
     let input: Vec<i64> = used.iter().flat_map(|i| parts[*i].iter().copied()).collect();
     let n = input.len();
-    let i = cx.case(req, ans, n >= 2 && k >= 1 && used.len() >= 2);
-    cx.count(&format!("reservoir:leaves:{}", match used.len() { 1 => "1", 2 => "2", 3 => "3", _ => "4+" }));
+    let i = cx.case(format!("RESERVOIR {args}"), ans, n >= 2 && k >= 1 && used.len() >= 2);
+    if state {
+        let st = match &r1 { Ok((_, st)) => st.clone(), Err(_) => "PANIC".to_string() };
+        cx.case(format!("RESSTATE {args}"), st, n >= 2 && k >= 1);
+        cx.count("reservoir:state-compared");
+    }
+    cx.count(&format!("reservoir:leaves:{}", match used.len() { 1 => "1", 2 => "2", 3 => "3", 4..=8 => "4-8", _ => "9+" }));
     cx.count(&format!("reservoir:{}", k_class(k, n)));
+    cx.count(&format!("reservoir:n:{}", n_class(n)));
     match (&r1, &r2) {
-        (Ok(s), Ok(s2)) => {
+        (Ok((s, st)), Ok((s2, st2))) => {
             if s.len() != k.min(n) {
                 cx.oracle_fail(i, "sample-wrong-size", format!("combiner: len {} but min(k={k}, n={n}) = {}", s.len(), k.min(n)));
             }
             if !sub_multiset(s, &input) {
                 cx.oracle_fail(i, "sample-not-submultiset", format!("combiner: sample {s:?} is not a sub-multiset of {input:?}"));
             }
-            if s != s2 {
+            if s != s2 || st != st2 {
                 cx.oracle_fail(i, "sample-not-reproducible", format!("combiner: {s:?} then {s2:?}"));
             }
         }
         _ => cx.oracle_fail(i, "sample-panics", "combiner panicked".to_string()),
     }
 }
+fn one_reservoir(cx: &mut Ctx, k: usize, seed: u64, parts: &[Vec<i64>], sh: &Shape) {
+    one_reservoir_opt(cx, k, seed, parts, sh, false);
+}
 
 fn k_class(k: usize, n: usize) -> &'static str {
     if k == 0 { "k=0" } else if k == 1 && n > 1 { "k=1" } else if k < n { "1<k<n" } else if k == n { "k=n" } else { "k>n" }
+}
+fn n_class(n: usize) -> &'static str {
+    match n { 0 => "0", 1 => "1", 2..=4 => "2-4", 5..=15 => "5-15", 16..=40 => "16-40", 41..=63 => "41-63", 64..=255 => "64-255", 256..=4095 => "256-4095", _ => "4096+" }
 }
 
 /* ------------------------------------------------------------------ the four pipeline entry points */
@@ -182,7 +205,7 @@ impl Entry {
 }
 const ENTRIES: [Entry; 4] = [Entry::GVec, Entry::GFlat, Entry::KVec, Entry::KFlat];
 
-/// canonical real output of one run
+/// canonical real output of one run (elements mapped back to i64)
 #[derive(Clone, PartialEq, Eq, Debug)]
 enum Out {
     GVec(Vec<Vec<i64>>),
@@ -225,69 +248,266 @@ impl Out {
     }
 }
 
-/// predicate put in front of the sample (`SAMPLEFILT`)
+/// stateless op put between `from_vec` and the sample
 #[derive(Clone, Copy, PartialEq, Eq, Debug)]
-enum Filt { All, None, Lt(i64), Ge(i64), Mod(i64, i64) }
-impl Filt {
+enum Pre { Id, All, Nothing, Lt(i64), Ge(i64), Mod(i64, i64), Map(i64, i64), Dup(i64) }
+impl Pre {
+    fn is_filter(self) -> bool { matches!(self, Pre::All | Pre::Nothing | Pre::Lt(_) | Pre::Ge(_) | Pre::Mod(..)) }
     fn keep(self, x: i64) -> bool {
         match self {
-            Filt::All => true,
-            Filt::None => false,
-            Filt::Lt(c) => x < c,
-            Filt::Ge(c) => x >= c,
-            Filt::Mod(m, r) => x.rem_euclid(m) == r,
+            Pre::Nothing => false,
+            Pre::Lt(c) => x < c,
+            Pre::Ge(c) => x >= c,
+            Pre::Mod(m, r) => x.rem_euclid(m) == r,
+            _ => true,
+        }
+    }
+    /// what the op emits for one element
+    fn apply(self, x: i64) -> Vec<i64> {
+        match self {
+            Pre::Id => vec![x],
+            Pre::Map(a, b) => vec![a * x + b],
+            Pre::Dup(m) => vec![x; x.rem_euclid(m) as usize],
+            f => if f.keep(x) { vec![x] } else { vec![] },
         }
     }
     fn enc(self) -> String {
         match self {
-            Filt::All => "all".into(),
-            Filt::None => "none".into(),
-            Filt::Lt(c) => format!("lt:{c}"),
-            Filt::Ge(c) => format!("ge:{c}"),
-            Filt::Mod(m, r) => format!("mod:{m}:{r}"),
+            Pre::Id => "-".into(),
+            Pre::All => "all".into(),
+            Pre::Nothing => "none".into(),
+            Pre::Lt(c) => format!("lt:{c}"),
+            Pre::Ge(c) => format!("ge:{c}"),
+            Pre::Mod(m, r) => format!("mod:{m}:{r}"),
+            Pre::Map(a, b) => format!("map:{a}:{b}"),
+            Pre::Dup(m) => format!("dup:{m}"),
+        }
+    }
+    fn class(self) -> &'static str {
+        match self { Pre::Id => "-", Pre::All => "all", Pre::Nothing => "none", Pre::Lt(_) => "lt", Pre::Ge(_) => "ge", Pre::Mod(..) => "mod", Pre::Map(..) => "map", Pre::Dup(_) => "dup" }
+    }
+}
+
+#[derive(Clone, Copy, PartialEq, Eq, Debug)]
+enum Mode { Seq, Par(usize), Auto, /// checkpointing enabled (the `exec_*_with_checkpointing` copies of the executors)
+    Ckpt(Option<usize>) }
+
+/// element / key types the same run is repeated with (`sample-depends-on-element-type`)
+trait Conv: RFBound {
+    fn of(x: i64) -> Self;
+    fn back(&self) -> i64;
+}
+impl Conv for i64 {
+    fn of(x: i64) -> Self { x }
+    fn back(&self) -> i64 { *self }
+}
+impl Conv for String {
+    fn of(x: i64) -> Self { format!("v{x}") }
+    fn back(&self) -> i64 { self[1..].parse().unwrap() }
+}
+#[derive(Clone, Debug, PartialEq, Eq, Hash)]
+struct Rec { id: i64, pad: String, w: [u8; 3] }
+impl Conv for Rec {
+    fn of(x: i64) -> Self { Rec { id: x, pad: format!("{:05}", x.rem_euclid(1000)), w: [x as u8, 1, 2] } }
+    fn back(&self) -> i64 { self.id }
+}
+
+static PLAN: Mutex<Vec<Vec<String>>> = Mutex::new(Vec::new());
+
+fn install_plan_hook() {
+    ironbeam::verif_hooks::set_plan_callback(Some(Arc::new(|k: &[String]| PLAN.lock().unwrap().push(k.to_vec()))));
+}
+fn remove_plan_hook() { ironbeam::verif_hooks::set_plan_callback(None); }
+
+/// `G` = CombineGlobal, `L` = CombineValues after the planner's lift (`local_pairs`), `U` = GroupByKey followed by
+/// CombineValues with `local_groups`, `J` = CoGroup (the join side's chain is not reported), `X` = anything else
+fn plan_token(kinds: &[Vec<String>]) -> String {
+    if kinds.len() != 1 { return "X".into(); }
+    let k = &kinds[0];
+    let has = |s: &str| k.iter().any(|x| x == s);
+    if has("CoGroup") { return "J".into(); }
+    if has("CombineGlobal") && !has("CombineValues") && !has("CombineValues+lifted") && !has("GroupByKey") { return "G".into(); }
+    if has("CombineValues") && !has("GroupByKey") && !has("CombineValues+lifted") && !has("CombineGlobal") { return "L".into(); }
+    if let Some(p) = k.iter().position(|x| x == "GroupByKey") {
+        if k.get(p + 1).map(String::as_str) == Some("CombineValues+lifted") && !has("CombineValues") && !has("CombineGlobal") { return "U".into(); }
+    }
+    "X".into()
+}
+
+fn collect<T: RFBound>(p: &Pipeline, c: ironbeam::PCollection<T>, mode: Mode) -> anyhow::Result<Vec<T>> {
+    match mode {
+        Mode::Seq => c.collect_seq(),
+        Mode::Par(n) => c.collect_par(None, Some(n)),
+        Mode::Auto => c.collect_par(None, None),
+        Mode::Ckpt(par) => {
+            let dir = tempfile::tempdir()?;
+            let cfg = ironbeam::checkpoint::CheckpointConfig {
+                enabled: true,
+                directory: dir.path().to_path_buf(),
+                policy: ironbeam::checkpoint::CheckpointPolicy::AfterEveryBarrier,
+                auto_recover: false,
+                max_checkpoints: Some(3),
+            };
+            let mode = match par { None => ironbeam::ExecMode::Sequential, Some(n) => ironbeam::ExecMode::Parallel { threads: None, partitions: Some(n) } };
+            ironbeam::Runner { mode, checkpoint_config: Some(cfg), ..Default::default() }.run_collect::<T>(p, c.node_id())
         }
     }
 }
 
-fn run_entry(e: Entry, k: usize, seed: u64, mode: Option<usize>, filt: Option<Filt>, xs: &[i64], rows: &[(i64, i64)]) -> Out {
+fn with_pre<T: Conv>(c: ironbeam::PCollection<T>, pre: Pre) -> ironbeam::PCollection<T> {
+    match pre {
+        Pre::Id => c,
+        Pre::Map(a, b) => c.map(move |t: &T| T::of(a * t.back() + b)),
+        Pre::Dup(m) => c.flat_map(move |t: &T| vec![t.clone(); t.back().rem_euclid(m) as usize]),
+        f => c.filter(move |t: &T| f.keep(t.back())),
+    }
+}
+fn with_pre_kv<K: Conv, V: Conv>(c: ironbeam::PCollection<(K, V)>, pre: Pre) -> ironbeam::PCollection<(K, V)> {
+    match pre {
+        Pre::Id => c,
+        Pre::Map(a, b) => c.map(move |r: &(K, V)| (r.0.clone(), V::of(a * r.1.back() + b))),
+        Pre::Dup(m) => c.flat_map(move |r: &(K, V)| vec![r.clone(); r.1.back().rem_euclid(m) as usize]),
+        f => c.filter(move |r: &(K, V)| f.keep(r.1.back())),
+    }
+}
+
+/// one run of one entry point with element type `V` and key type `K`; `join`: the sample feeds `join_inner`
+/// whose right side holds every key exactly once (so the joined rows ARE the sample). Returns the canonical
+/// output and the plan token observed through `on_plan`.
+fn run_typed<K: Conv + Eq + Hash, V: Conv>(e: Entry, k: usize, seed: u64, mode: Mode, pre: Pre, join: bool, xs: &[i64], rows: &[(i64, i64)]) -> (Out, String) {
+    PLAN.lock().unwrap().clear();
     let r = guarded(|| -> anyhow::Result<Out> {
         let p = Pipeline::default();
-        let src = || {
-            let c = from_vec(&p, xs.to_vec());
-            match filt { Some(f) => c.filter(move |x: &i64| f.keep(*x)), None => c }
-        };
-        let ksrc = || {
-            let c = from_vec(&p, rows.to_vec());
-            match filt { Some(f) => c.filter(move |r: &(i64, i64)| f.keep(r.1)), None => c }
+        let src = || with_pre(from_vec(&p, xs.iter().map(|x| V::of(*x)).collect::<Vec<V>>()), pre);
+        let ksrc = || with_pre_kv(from_vec(&p, rows.iter().map(|r| (K::of(r.0), V::of(r.1))).collect::<Vec<(K, V)>>()), pre);
+        let right = || {
+            let mut ks: Vec<i64> = rows.iter().map(|r| r.0).collect();
+            ks.sort();
+            ks.dedup();
+            from_vec(&p, ks.into_iter().map(|x| (K::of(x), 0i64)).collect::<Vec<(K, i64)>>())
         };
         Ok(match e {
             Entry::GVec => {
+                // (a `Vec` row cannot be a join key/value pair without a map; the join form of the global sample is `gflat`)
                 let c = src().sample_reservoir_vec(k, seed);
-                Out::GVec(match mode { None => c.collect_seq()?, Some(n) => c.collect_par(None, Some(n))? })
+                Out::GVec(collect(&p, c, mode)?.into_iter().map(|row| row.iter().map(Conv::back).collect()).collect())
             }
             Entry::GFlat => {
                 let c = src().sample_reservoir(k, seed);
-                Out::GFlat(match mode { None => c.collect_seq()?, Some(n) => c.collect_par(None, Some(n))? })
+                if join {
+                    let j = c.map(|t: &V| (0i64, t.clone())).join_inner(&from_vec(&p, vec![(0i64, 0i64)]));
+                    Out::GFlat(collect(&p, j, mode)?.into_iter().map(|r| r.1.0.back()).collect())
+                } else {
+                    Out::GFlat(collect(&p, c, mode)?.iter().map(Conv::back).collect())
+                }
             }
             Entry::KVec => {
                 let c = ksrc().sample_values_reservoir_vec(k, seed);
-                let mut v = match mode { None => c.collect_seq()?, Some(n) => c.collect_par(None, Some(n))? };
+                let mut v: Vec<(i64, Vec<i64>)> = if join {
+                    collect(&p, c.join_inner(&right()), mode)?.into_iter().map(|r| (r.0.back(), r.1.0.iter().map(Conv::back).collect())).collect()
+                } else {
+                    collect(&p, c, mode)?.into_iter().map(|r| (r.0.back(), r.1.iter().map(Conv::back).collect())).collect()
+                };
                 v.sort_by_key(|r| r.0);
                 Out::KVec(v)
             }
             Entry::KFlat => {
                 let c = ksrc().sample_values_reservoir(k, seed);
-                let mut v = match mode { None => c.collect_seq()?, Some(n) => c.collect_par(None, Some(n))? };
+                let mut v: Vec<(i64, i64)> = if join {
+                    collect(&p, c.join_inner(&right()), mode)?.into_iter().map(|r| (r.0.back(), r.1.0.back())).collect()
+                } else {
+                    collect(&p, c, mode)?.into_iter().map(|r| (r.0.back(), r.1.back())).collect()
+                };
                 v.sort_by_key(|r| r.0); // stable: the order inside each key's sample is kept
                 Out::KFlat(v)
             }
         })
     });
-    match r {
+    let plan = plan_token(&PLAN.lock().unwrap());
+    let out = match r {
         Ok(Ok(o)) => o,
         Ok(Err(_)) => Out::Fail("ERR".into()),
         Err(_) => Out::Fail("PANIC".into()),
+    };
+    (out, plan)
+}
+
+fn run_entry(e: Entry, k: usize, seed: u64, mode: Mode, pre: Pre, join: bool, xs: &[i64], rows: &[(i64, i64)]) -> (Out, String) {
+    run_typed::<i64, i64>(e, k, seed, mode, pre, join, xs, rows)
+}
+
+/// the chunks the engine starts from: the clamp of `exec_par` / `run_subplan_par`, then the REAL `VecOps::split`
+fn real_split<T: Clone + Send + Sync + 'static>(v: &[T], p: usize) -> Vec<Vec<T>> {
+    let data: Vec<T> = v.to_vec();
+    let parts = p.max(1).min(data.len().max(1));
+    let got = guarded(|| {
+        let ops = vec_ops_for::<T>();
+        ops.split(&data, parts).and_then(|ps| ps.into_iter().map(|b| b.downcast::<Vec<T>>().ok().map(|b| *b)).collect::<Option<Vec<Vec<T>>>>())
+    });
+    match got { Ok(Some(c)) => c, _ => vec![data] }
+}
+/// the chunk sizes `type_token.rs` is modelled with (`vecSplit`): one chunk, or `ceil(len / n)` sized ones
+fn reference_sizes(len: usize, p: usize) -> Vec<usize> {
+    let n = p.max(1).min(len.max(1));
+    if n <= 1 || len <= 1 { return vec![len]; }
+    let c = len.div_ceil(n);
+    let mut out = vec![];
+    let mut left = len;
+    while left > 0 { out.push(left.min(c)); left -= left.min(c); }
+    out
+}
+
+/* ---- the REAL combiner driven by hand over the engine's chunks (model-independent prediction) ---- */
+
+fn fold_acc<C, A>(c: &C, vals: &[i64]) -> A where C: CombineFn<i64, A, Vec<i64>> {
+    let mut a = c.create();
+    for v in vals { c.add_input(&mut a, *v); }
+    a
+}
+fn global_by_hand<C, A>(c: &C, parts: &[Vec<i64>]) -> Vec<i64> where C: CombineFn<i64, A, Vec<i64>> {
+    let mut it = parts.iter();
+    let mut acc = match it.next() { Some(p) => fold_acc(c, p), None => c.create() };
+    for p in it { let a = fold_acc(c, p); c.merge(&mut acc, a); }
+    c.finish(acc)
+}
+/// lifted plan: `local_pairs` per chunk, then per key `merge(entry.or_insert_with(create), acc)` in chunk order
+fn keyed_lifted_by_hand<C, A>(c: &C, parts: &[Vec<(i64, i64)>]) -> Vec<(i64, Vec<i64>)> where C: CombineFn<i64, A, Vec<i64>> {
+    let mut accs: BTreeMap<i64, A> = BTreeMap::new();
+    for p in parts {
+        let mut m: BTreeMap<i64, A> = BTreeMap::new();
+        for (k, v) in p { c.add_input(m.entry(*k).or_insert_with(|| c.create()), *v); }
+        for (k, a) in m { c.merge(accs.entry(k).or_insert_with(|| c.create()), a); }
     }
+    accs.into_iter().map(|(k, a)| (k, c.finish(a))).collect()
+}
+/// un-lifted plan: GroupByKey barrier, ONE `build_from_group` per key, merged into a fresh `create()`
+fn keyed_unlifted_by_hand<C, A>(c: &C, parts: &[Vec<(i64, i64)>]) -> Vec<(i64, Vec<i64>)>
+where C: CombineFn<i64, A, Vec<i64>> + LiftableCombiner<i64, A, Vec<i64>> {
+    let mut groups: BTreeMap<i64, Vec<i64>> = BTreeMap::new();
+    for p in parts { for (k, v) in p { groups.entry(*k).or_default().push(*v); } }
+    groups.into_iter().map(|(k, vs)| {
+        let a = c.build_from_group(&vs);
+        let mut e = c.create();
+        c.merge(&mut e, a);
+        (k, c.finish(e))
+    }).collect()
+}
+/// what the executed plan yields when the REAL combiner is driven over `chunks` (already cut, `pre` not yet applied)
+fn by_hand(e: Entry, plan: &str, k: usize, seed: u64, pre: Pre, gch: &[Vec<i64>], kch: &[Vec<(i64, i64)>]) -> Option<Out> {
+    let plan = plan.to_string();
+    guarded(move || {
+        let c = PriorityReservoir::<i64>::new(k, seed);
+        if e.keyed() {
+            let parts: Vec<Vec<(i64, i64)>> = kch.iter().map(|p| p.iter().flat_map(|r| pre.apply(r.1).into_iter().map(|v| (r.0, v))).collect()).collect();
+            let kd = match plan.as_str() { "L" => keyed_lifted_by_hand(&c, &parts), "U" => keyed_unlifted_by_hand(&c, &parts), _ => return None };
+            Some(if e == Entry::KVec { Out::KVec(kd) } else { Out::KFlat(kd.iter().flat_map(|(kk, vs)| vs.iter().map(|v| (*kk, *v))).collect()) })
+        } else {
+            if plan != "G" { return None; }
+            let parts: Vec<Vec<i64>> = gch.iter().map(|p| p.iter().flat_map(|x| pre.apply(*x)).collect()).collect();
+            let row = global_by_hand(&c, &parts);
+            Some(if e == Entry::GVec { Out::GVec(vec![row]) } else { Out::GFlat(row) })
+        }
+    }).ok().flatten()
 }
 
 /// the property's statement about ONE run's output, evaluated on the real output only
@@ -324,7 +544,8 @@ fn check_one(cx: &mut Ctx, i: usize, e: Entry, k: usize, label: &str, out: &Out,
             cx.oracle_fail(i, "sample-wrong-size", format!("{} {label} key {kk}: len {} but min(k={k}, n={}) = {want}", e.name(), got.len(), vals.len()));
         }
         if !sub_multiset(got, vals) {
-            cx.oracle_fail(i, "sample-not-submultiset", format!("{} {label} key {kk}: {got:?} not a sub-multiset of {vals:?}", e.name()));
+            let show = |v: &[i64]| if v.len() > 40 { format!("{:?}… ({} values)", &v[..40], v.len()) } else { format!("{v:?}") };
+            cx.oracle_fail(i, "sample-not-submultiset", format!("{} {label} key {kk}: {} not a sub-multiset of {}", e.name(), show(got), show(vals)));
         }
     }
 }
@@ -333,59 +554,95 @@ fn check_one(cx: &mut Ctx, i: usize, e: Entry, k: usize, label: &str, out: &Out,
 fn nonempty(pk: &[(i64, Vec<i64>)]) -> Vec<(i64, Vec<i64>)> {
     pk.iter().filter(|r| !r.1.is_empty()).cloned().collect()
 }
+fn short(s: String) -> String { if s.len() > 600 { format!("{}… ({} chars)", &s[..600], s.len()) } else { s } }
 
-/// `xs`/`rows` are the SOURCE rows; `filt` (if any) sits between the source and the sample
-fn one_pipe(cx: &mut Ctx, e: Entry, k: usize, seed: u64, parts: &[usize], filt: Option<Filt>, xs: &[i64], rows: &[(i64, i64)]) {
+struct PipeRes { case: usize, outs: Vec<Out>, modes: Vec<Mode> }
+
+/// `xs`/`rows` are the SOURCE rows; `pre` sits between the source and the sample; `join`: the sample feeds a join
+fn one_pipe(cx: &mut Ctx, e: Entry, k: usize, seed: u64, parts: &[usize], pre: Pre, join: bool, xs: &[i64], rows: &[(i64, i64)]) -> PipeRes {
     let n_src = if e.keyed() { rows.len() } else { xs.len() };
     // what the sample is taken from
-    let fxs: Vec<i64> = xs.iter().copied().filter(|x| filt.map_or(true, |f| f.keep(*x))).collect();
-    let frows: Vec<(i64, i64)> = rows.iter().copied().filter(|r| filt.map_or(true, |f| f.keep(r.1))).collect();
+    let fxs: Vec<i64> = xs.iter().flat_map(|x| pre.apply(*x)).collect();
+    let frows: Vec<(i64, i64)> = rows.iter().flat_map(|r| pre.apply(r.1).into_iter().map(|v| (r.0, v))).collect();
     let n = if e.keyed() { frows.len() } else { fxs.len() };
     let data = if e.keyed() { enc_pairs(rows) } else { enc_ints(xs, ",") };
-    let req = match filt {
-        None => format!("SAMPLEPIPE {} {k} {seed} {} {data}", e.name(), enc_usizes(parts)),
-        Some(f) => format!("SAMPLEFILT {} {k} {seed} {} {} {data}", e.name(), enc_usizes(parts), f.enc()),
-    };
     let mut labels: Vec<String> = vec!["seq".into()];
-    let mut modes: Vec<Option<usize>> = vec![None];
-    for p in parts { labels.push(format!("p{p}")); modes.push(Some(*p)); }
-    let outs: Vec<Out> = modes.iter().map(|m| run_entry(e, k, seed, *m, filt, xs, rows)).collect();
-    let again: Vec<Out> = modes.iter().map(|m| run_entry(e, k, seed, *m, filt, xs, rows)).collect();
-    let ans = labels.iter().zip(&outs).map(|(l, o)| format!("{l}={}", o.enc())).collect::<Vec<_>>().join(" ");
-    let i = cx.case(req, ans, n >= 2 && k >= 1 && !parts.is_empty());
-    let tag = if filt.is_some() { "filt" } else { "pipe" };
-    cx.count(&format!("{tag}:{}", e.name()));
-    cx.count(&format!("{tag}:{}", k_class(k, n)));
-    cx.count(&format!("{tag}:n:{}", match n { 0 => "0", 1 => "1", 2..=4 => "2-4", 5..=15 => "5-15", 16..=40 => "16-40", _ => "41+" }));
-    if let Some(f) = filt {
-        cx.count(&format!("filt:pred:{}", match f { Filt::All => "all", Filt::None => "none", Filt::Lt(_) => "lt", Filt::Ge(_) => "ge", Filt::Mod(..) => "mod" }));
-        cx.count(&format!("filt:kept:{}", if n == n_src { "all" } else if n == 0 { "nothing" } else if 2 * n >= n_src { ">=half" } else { "<half" }));
-        // shape of the partitions the combiner sees (global path; reference split = ceil(len/parts) chunks)
-        if !e.keyed() {
-            for p in parts {
-                let pc = (*p).max(1).min(n_src.max(1));
-                if pc <= 1 || n_src <= 1 { continue; }
-                let sz = n_src.div_ceil(pc);
-                let sizes: Vec<usize> = xs.chunks(sz).map(|c| c.iter().filter(|x| f.keep(**x)).count()).collect();
-                let empty = sizes.iter().filter(|s| **s == 0).count();
-                let (mn, mx) = (sizes.iter().min().copied().unwrap_or(0), sizes.iter().max().copied().unwrap_or(0));
-                cx.count(if empty == sizes.len() { "filt:partitions:all-empty" } else if empty > 0 { "filt:partitions:some-empty" } else if mx > mn + 1 { "filt:partitions:skewed" } else { "filt:partitions:even" });
-                if sizes.first() == Some(&0) && empty < sizes.len() { cx.count("filt:partitions:first-empty"); }
+    let mut modes: Vec<Mode> = vec![Mode::Seq];
+    for p in parts { labels.push(format!("p{p}")); modes.push(Mode::Par(*p)); }
+    // the chunks every run starts from (sequential mode: the whole source)
+    let gchunks: Vec<Vec<Vec<i64>>> = modes.iter().map(|m| match m { Mode::Par(p) if !e.keyed() => real_split(xs, *p), _ => vec![xs.to_vec()] }).collect();
+    let kchunks: Vec<Vec<Vec<(i64, i64)>>> = modes.iter().map(|m| match m { Mode::Par(p) if e.keyed() => real_split(rows, *p), _ => vec![rows.to_vec()] }).collect();
+    let sizes: Vec<Vec<usize>> = (0..modes.len()).map(|j| if e.keyed() { kchunks[j].iter().map(Vec::len).collect() } else { gchunks[j].iter().map(Vec::len).collect() }).collect();
+    for (j, m) in modes.iter().enumerate() {
+        if let Mode::Par(p) = m {
+            if sizes[j] == reference_sizes(n_src, *p) { cx.count("pipe:split=modelled-vecSplit"); } else {
+                cx.count("pipe:split!=modelled-vecSplit");
+                if !cx.notes.iter().any(|s| s.starts_with("VecOps::split")) {
+                    cx.notes.push(format!("VecOps::split no longer cuts ceil(len/n) chunks (e.g. len {n_src}, {p} partitions -> sizes {:?}): the model follows the sizes observed, Lean `vecSplit` / `partsOf` should be re-modelled", sizes[j]));
+                }
             }
         }
     }
+    let runs: Vec<(Out, String)> = modes.iter().map(|m| run_entry(e, k, seed, *m, pre, join, xs, rows)).collect();
+    let again: Vec<(Out, String)> = modes.iter().map(|m| run_entry(e, k, seed, *m, pre, join, xs, rows)).collect();
+    let outs: Vec<Out> = runs.iter().map(|r| r.0.clone()).collect();
+    // the plan that ran: a join side is executed as built (no planner pass); otherwise as reported by `on_plan`
+    let plan: String = if join {
+        if runs.iter().all(|r| r.1 == "J") { if e.keyed() { "U".into() } else { "G".into() } } else { "X".into() }
+    } else if runs.iter().all(|r| r.1 == runs[0].1) { runs[0].1.clone() } else { "X".into() };
+    let run_toks: Vec<String> = (1..modes.len()).map(|j| format!("{}@{}", parts[j - 1], sizes[j].iter().map(|s| s.to_string()).collect::<Vec<_>>().join("."))).collect();
+    let req = format!("{} {} {k} {seed} {} {plan} {} {data}", if join { "SAMPLEJOIN" } else { "SAMPLEPIPE" }, e.name(), pre.enc(),
+        if run_toks.is_empty() { "-".to_string() } else { run_toks.join(",") });
+    let ans = labels.iter().zip(&outs).map(|(l, o)| format!("{l}={}", o.enc())).collect::<Vec<_>>().join(" ");
+    let i = cx.case(req, ans, n >= 2 && k >= 1 && !parts.is_empty());
+    let tag = if join { "join" } else if pre != Pre::Id { "pre" } else { "pipe" };
+    cx.count(&format!("{tag}:{}", e.name()));
+    cx.count(&format!("{tag}:{}", k_class(k, n)));
+    cx.count(&format!("{tag}:n:{}", n_class(n)));
+    cx.count(&format!("plan:{plan}"));
+    if pre != Pre::Id {
+        cx.count(&format!("pre:op:{}", pre.class()));
+        if pre.is_filter() {
+            cx.count(&format!("pre:kept:{}", if n == n_src { "all" } else if n == 0 { "nothing" } else if 2 * n >= n_src { ">=half" } else { "<half" }));
+        }
+        // shape of the partitions the combiner sees (global path)
+        if !e.keyed() {
+            for j in 1..modes.len() {
+                if gchunks[j].len() <= 1 { continue; }
+                let sz: Vec<usize> = gchunks[j].iter().map(|c| c.iter().map(|x| pre.apply(*x).len()).sum()).collect();
+                let empty = sz.iter().filter(|s| **s == 0).count();
+                let (mn, mx) = (sz.iter().min().copied().unwrap_or(0), sz.iter().max().copied().unwrap_or(0));
+                cx.count(if empty == sz.len() { "pre:partitions:all-empty" } else if empty > 0 { "pre:partitions:some-empty" } else if mx > mn + 1 { "pre:partitions:skewed" } else { "pre:partitions:even" });
+                if sz.first() == Some(&0) && empty < sz.len() { cx.count("pre:partitions:first-empty"); }
+            }
+        }
+    }
+    for j in 1..modes.len() {
+        cx.count(&format!("pipe:chunks:{}", match sizes[j].len() { 1 => "1", 2..=4 => "2-4", 5..=16 => "5-16", 17..=61 => "17-61", _ => "62+" }));
+        if sizes[j].iter().any(|s| *s >= 64) && sizes[j].len() > 1 { cx.count("pipe:merge-of-chunks>=64-rows"); }
+    }
+    if plan == "X" {
+        cx.oracle_fail(i, "unexpected-plan-shape", format!("{} join={join}: on_plan reported {:?}", e.name(), runs.iter().map(|r| r.1.clone()).collect::<Vec<_>>()));
+    }
     for (j, o) in outs.iter().enumerate() {
         check_one(cx, i, e, k, &labels[j], o, &fxs, &frows);
-        if *o != again[j] {
-            cx.oracle_fail(i, "sample-not-reproducible", format!("{} {}: {} then {}", e.name(), labels[j], o.enc(), again[j].enc()));
+        if *o != again[j].0 {
+            cx.oracle_fail(i, "sample-not-reproducible", short(format!("{} {}: {} then {}", e.name(), labels[j], o.enc(), again[j].0.enc())));
+        }
+        // real vs real: the pipeline's output is the REAL combiner driven over the engine's chunks as the plan prescribes
+        if let Some(want) = by_hand(e, &plan, k, seed, pre, &gchunks[j], &kchunks[j]) {
+            cx.count("pipe:compared-with-combiner-on-engine-chunks");
+            if *o != want {
+                cx.oracle_fail(i, "pipeline-sample-differs-from-combiner-on-engine-chunks", short(format!("{} k={k} seed={seed} pre={} plan={plan} {} (chunk sizes {:?}): pipeline {} but PriorityReservoir driven by hand over these chunks gives {}", e.name(), pre.enc(), labels[j], sizes[j], o.enc(), want.enc())));
+            }
         }
     }
     // the flattened entry points return exactly the rows of the Vec form of the same run, flattened in order
     // (Lean: sampleFlatSeq_eq / sampleFlatPar_eq; flattenKeyed is the keyed flattening by definition)
-    if matches!(e, Entry::GFlat | Entry::KFlat) {
+    if matches!(e, Entry::GFlat | Entry::KFlat) && !(join && e == Entry::GFlat) {
         let ve = if e == Entry::GFlat { Entry::GVec } else { Entry::KVec };
         for (j, m) in modes.iter().enumerate() {
-            let vo = run_entry(ve, k, seed, *m, filt, xs, rows);
+            let vo = run_entry(ve, k, seed, *m, pre, join, xs, rows).0;
             let same = match (&outs[j], &vo) {
                 (Out::GFlat(f), Out::GVec(rows)) => *f == rows.iter().flatten().copied().collect::<Vec<i64>>(),
                 (Out::KFlat(f), Out::KVec(rows)) => *f == rows.iter().flat_map(|(kk, vs)| vs.iter().map(|v| (*kk, *v))).collect::<Vec<(i64, i64)>>(),
@@ -394,7 +651,7 @@ fn one_pipe(cx: &mut Ctx, e: Entry, k: usize, seed: u64, parts: &[usize], filt: 
             };
             cx.count("pipe:flat-vs-vec-compared");
             if !same {
-                cx.oracle_fail(i, "flattened-sample-differs-from-vec-form", format!("{} {}: {} but {} gives {}", e.name(), labels[j], outs[j].enc(), ve.name(), vo.enc()));
+                cx.oracle_fail(i, "flattened-sample-differs-from-vec-form", short(format!("{} {}: {} but {} gives {}", e.name(), labels[j], outs[j].enc(), ve.name(), vo.enc())));
             }
         }
     }
@@ -411,24 +668,32 @@ fn one_pipe(cx: &mut Ctx, e: Entry, k: usize, seed: u64, parts: &[usize], filt: 
     let seq_pk = outs[0].per_key();
     let mut known_fail: Option<(&str, String)> = None;
     for j in 1..outs.len() {
-        let p = modes[j].unwrap_or(1);
+        let p = parts[j - 1];
         let single = p <= 1 || n_src <= 1;
-        let singletons = !single && p >= n_src;
+        // every chunk hands <= 1 row to the sampler (the modelled split: p >= n_src, and an op that emits <= 1 row per row)
+        let fed: Vec<usize> = if e.keyed() { kchunks[j].iter().map(|c| c.iter().map(|r| pre.apply(r.1).len()).sum()).collect() } else { gchunks[j].iter().map(|c| c.iter().map(|x| pre.apply(*x).len()).sum()).collect() };
+        let singletons = !single && sizes[j].len() > 1 && fed.iter().all(|s| *s <= 1);
         let is_last_k = outs[j].per_key().map(|pk| nonempty(&pk) == nonempty(&last_k)).unwrap_or(false);
-        if singletons {
-            cx.count(if is_last_k { "pipe:parts>=n:sample=last-k" } else { "pipe:parts>=n:sample!=last-k" });
+        if singletons && plan != "U" {
+            cx.count(if is_last_k { "pipe:singleton-chunks:sample=last-k" } else { "pipe:singleton-chunks:sample!=last-k" });
         }
         if single { cx.count("pipe:single-partition-run"); }
         if outs[j] == outs[0] { continue; }
         cx.count("pipe:seq!=par");
+        let ctx_s = format!("{} k={k} seed={seed} pre={} plan={plan}", e.name(), pre.enc());
         if single {
             // NOT the known finding: one partition runs the very same fold as sequential mode
-            cx.oracle_fail(i, "single-partition-run-differs-from-sequential", format!("{} k={k} seed={seed} filter={}: seq {} but {} (one partition: requested {p}, {n_src} source rows) {}", e.name(), filt.map_or("-".into(), Filt::enc), outs[0].enc(), labels[j], outs[j].enc()));
+            cx.oracle_fail(i, "single-partition-run-differs-from-sequential", short(format!("{ctx_s}: seq {} but {} (one partition: requested {p}, {n_src} source rows) {}", outs[0].enc(), labels[j], outs[j].enc())));
+            continue;
+        }
+        if plan == "U" && e.keyed() {
+            // NOT the known finding: after the GroupByKey barrier every key is sampled by ONE build_from_group
+            cx.oracle_fail(i, "unlifted-keyed-run-differs-from-sequential", short(format!("{ctx_s}: seq {} but {} {}", outs[0].enc(), labels[j], outs[j].enc())));
             continue;
         }
         if singletons && !is_last_k {
             // NOT the known finding: the restarted stream yields exactly the last k inputs here
-            cx.oracle_fail(i, "sample-differs-from-seq-and-is-not-last-k-at-singleton-partitions", format!("{} k={k} seed={seed} filter={}: {} partitions for {n_src} source rows give {} (sequential {}), the restarted-stream mechanism of the known finding predicts {}", e.name(), filt.map_or("-".into(), Filt::enc), p, outs[j].enc(), outs[0].enc(), enc_groups(&nonempty(&last_k))));
+            cx.oracle_fail(i, "sample-differs-from-seq-and-is-not-last-k-at-singleton-partitions", short(format!("{ctx_s}: {} partitions for {n_src} source rows give {} (sequential {}), the restarted-stream mechanism of the known finding predicts {}", p, outs[j].enc(), outs[0].enc(), enc_groups(&nonempty(&last_k)))));
             continue;
         }
         // the known finding (reported once per request: the first differing partition count)
@@ -440,10 +705,94 @@ fn one_pipe(cx: &mut Ctx, e: Entry, k: usize, seed: u64, parts: &[usize], filt: 
             _ => false,
         };
         let sig = if same_elems { "sample-order-differs-between-seq-and-par" } else { "sample-differs-between-seq-and-par" };
-        known_fail = Some((sig, format!("{} k={k} seed={seed}: seq {} but {} {}", e.name(), outs[0].enc(), labels[j], outs[j].enc())));
+        known_fail = Some((sig, short(format!("{ctx_s}: seq {} but {} {}", outs[0].enc(), labels[j], outs[j].enc()))));
     }
     // emitted after the dedicated signatures so that a replay names the more specific failure first
     if let Some((sig, detail)) = known_fail { cx.oracle_fail(i, sig, detail); }
+    PipeRes { case: i, outs, modes }
+}
+
+/// the same runs with `String` elements / `String` keys and with a struct element type must give the i64 run's
+/// sample (through the index map), and `collect_par(None, None)` (machine-dependent partition count: oracle only)
+/// must satisfy size / sub-multiset / reproducibility
+fn typed_and_auto(cx: &mut Ctx, r: &PipeRes, e: Entry, k: usize, seed: u64, pre: Pre, xs: &[i64], rows: &[(i64, i64)]) {
+    for (j, m) in r.modes.iter().enumerate() {
+        let s = run_typed::<String, String>(e, k, seed, *m, pre, false, xs, rows).0;
+        let t = run_typed::<i64, Rec>(e, k, seed, *m, pre, false, xs, rows).0;
+        cx.count("typed:String+struct-runs-compared");
+        for (name, o) in [("String elements and keys", &s), ("struct elements", &t)] {
+            if *o != r.outs[j] {
+                cx.oracle_fail(r.case, "sample-depends-on-element-type", short(format!("{} k={k} seed={seed} {:?}: i64 run {} but {name} give {}", e.name(), m, r.outs[j].enc(), o.enc())));
+            }
+        }
+    }
+    // the checkpointing copies of the executors (`exec_seq_with_checkpointing` / `exec_par_with_checkpointing`)
+    for (j, m) in r.modes.iter().enumerate() {
+        let cm = match m { Mode::Seq => Mode::Ckpt(None), Mode::Par(n) => Mode::Ckpt(Some(*n)), _ => continue };
+        let o = run_entry(e, k, seed, cm, pre, false, xs, rows).0;
+        cx.count("ckpt:checkpointed-runs-compared");
+        if o != r.outs[j] {
+            cx.oracle_fail(r.case, "checkpointed-run-differs-from-plain-run", short(format!("{} k={k} seed={seed} {:?}: plain run {} but with checkpointing enabled {}", e.name(), m, r.outs[j].enc(), o.enc())));
+        }
+    }
+    let fxs: Vec<i64> = xs.iter().flat_map(|x| pre.apply(*x)).collect();
+    let frows: Vec<(i64, i64)> = rows.iter().flat_map(|r| pre.apply(r.1).into_iter().map(|v| (r.0, v))).collect();
+    let a1 = run_entry(e, k, seed, Mode::Auto, pre, false, xs, rows).0;
+    let a2 = run_entry(e, k, seed, Mode::Auto, pre, false, xs, rows).0;
+    cx.count("auto:collect_par(None,None)-runs");
+    check_one(cx, r.case, e, k, "auto-partitions", &a1, &fxs, &frows);
+    if a1 != a2 {
+        cx.oracle_fail(r.case, "sample-not-reproducible", short(format!("{} collect_par(None, None): {} then {}", e.name(), a1.enc(), a2.enc())));
+    }
+}
+
+/// a sample taken AFTER a hash-ordered barrier: `from_vec(rows).group_by_key().map(|g| g.0).sample_reservoir_vec(k, seed)`.
+/// The `map` records the order in which the (single) post-barrier partition is laid out, i.e. the order in which the
+/// sampler is fed. Two runs of the same pipeline: the model must reproduce each run's sample from the order it saw.
+fn one_gbk(cx: &mut Ctx, k: usize, seed: u64, mode: Mode, rows: &[(i64, i64)]) {
+    let run = || -> (Vec<i64>, Out) {
+        let rec: Arc<Mutex<Vec<i64>>> = Arc::new(Mutex::new(vec![]));
+        let rec2 = rec.clone();
+        let r = guarded(|| -> anyhow::Result<Vec<Vec<i64>>> {
+            let p = Pipeline::default();
+            let c = from_vec(&p, rows.to_vec()).group_by_key().map(move |g: &(i64, Vec<i64>)| { rec2.lock().unwrap().push(g.0); g.0 }).sample_reservoir_vec(k, seed);
+            collect(&p, c, mode)
+        });
+        let order = rec.lock().unwrap().clone();
+        (order, match r { Ok(Ok(v)) => Out::GVec(v), Ok(Err(_)) => Out::Fail("ERR".into()), Err(_) => Out::Fail("PANIC".into()) })
+    };
+    let (o1, s1) = run();
+    let (o2, s2) = run();
+    let i = cx.case(format!("SAMPLEGBK {k} {seed} {} {}", enc_ints(&o1, ","), enc_ints(&o2, ",")), format!("r1={} r2={}", s1.enc(), s2.enc()), o1.len() >= 2 && k >= 1);
+    cx.count("gbk:requests");
+    let mut keys: Vec<i64> = rows.iter().map(|r| r.0).collect();
+    keys.sort();
+    keys.dedup();
+    for (o, s, l) in [(&o1, &s1, "run 1"), (&o2, &s2, "run 2")] {
+        let mut so = o.clone();
+        so.sort();
+        if so != keys {
+            cx.oracle_fail(i, "sampler-input-after-barrier-is-not-the-key-set", format!("{l}: the sampler was fed {o:?}, keys {keys:?}"));
+        }
+        check_one(cx, i, Entry::GVec, k, l, s, &keys, &[]);
+    }
+    if s1 != s2 {
+        if o1 == o2 {
+            cx.oracle_fail(i, "sample-not-reproducible", format!("after group_by_key, same feeding order {o1:?}: {} then {}", s1.enc(), s2.enc()));
+        } else {
+            cx.count("gbk:two-runs-differ");
+            cx.oracle_fail(i, "sample-not-reproducible-after-hash-ordered-barrier", format!("from_vec(..).group_by_key().map(key).sample_reservoir_vec({k}, {seed}) {mode:?}: run 1 fed {o1:?} -> {}, run 2 fed {o2:?} -> {}", s1.enc(), s2.enc()));
+        }
+    } else {
+        cx.count("gbk:two-runs-agree");
+    }
+}
+
+fn one_ord(cx: &mut Ctx, a: u64, b: u64) {
+    let r = guarded(|| OrdF64(f64::from_bits(a)).cmp(&OrdF64(f64::from_bits(b))));
+    let ans = match r { Ok(std::cmp::Ordering::Less) => "LT", Ok(std::cmp::Ordering::Equal) => "EQ", Ok(std::cmp::Ordering::Greater) => "GT", Err(_) => "PANIC" };
+    cx.case(format!("ORDF64 {a} {b}"), ans.to_string(), a != b);
+    cx.count("ordf64:pairs");
 }
 
 /* ------------------------------------------------------------------ generators */
@@ -499,6 +848,19 @@ fn left_comb(m: usize) -> Shape {
     for i in 1..m { t = Shape::Node(Box::new(t), Box::new(Shape::Leaf(i, false))); }
     t
 }
+fn right_comb(lo: usize, hi: usize) -> Shape {
+    if lo + 1 == hi { Shape::Leaf(lo, false) } else { Shape::Node(Box::new(Shape::Leaf(lo, false)), Box::new(right_comb(lo + 1, hi))) }
+}
+fn balanced(lo: usize, hi: usize) -> Shape {
+    if lo + 1 == hi { Shape::Leaf(lo, false) } else { let mid = (lo + hi) / 2; Shape::Node(Box::new(balanced(lo, mid)), Box::new(balanced(mid, hi))) }
+}
+/// the same tree with every leaf built by `build_from_group`
+fn lift_all(sh: &Shape) -> Shape {
+    match sh {
+        Shape::Leaf(i, _) => Shape::Leaf(*i, true),
+        Shape::Node(l, r) => Shape::Node(Box::new(lift_all(l)), Box::new(lift_all(r))),
+    }
+}
 /// all binary tree shapes over the leaf sequence
 fn all_trees(leaves: &[usize]) -> Vec<Shape> {
     if leaves.len() == 1 { return vec![Shape::Leaf(leaves[0], false)]; }
@@ -550,16 +912,18 @@ fn keyed_rows(cx: &mut Ctx, vals: &[i64]) -> Vec<(i64, i64)> {
         (k, *v)
     }).collect()
 }
-/// a predicate for the filter in front of the sample; thresholds inside and at the ends of the value range
-fn gen_filt(cx: &mut Ctx, vals: &[i64]) -> Filt {
+/// a stateless op in front of the sample; thresholds inside and at the ends of the value range
+fn gen_pre(cx: &mut Ctx, vals: &[i64]) -> Pre {
     let lo = vals.iter().min().copied().unwrap_or(0);
     let hi = vals.iter().max().copied().unwrap_or(0);
-    match cx.rng.below(10) {
-        0 => Filt::All,
-        1 => Filt::None,
-        2 | 3 | 4 => Filt::Lt(cx.rng.range(lo - 1, hi + 1)),
-        5 | 6 => Filt::Ge(cx.rng.range(lo - 1, hi + 1)),
-        _ => { let m = cx.rng.range(2, 4); Filt::Mod(m, cx.rng.range(0, m - 1)) }
+    match cx.rng.below(13) {
+        0 => Pre::All,
+        1 => Pre::Nothing,
+        2 | 3 | 4 => Pre::Lt(cx.rng.range(lo - 1, hi + 1)),
+        5 | 6 => Pre::Ge(cx.rng.range(lo - 1, hi + 1)),
+        7 | 8 => { let m = cx.rng.range(2, 4); Pre::Mod(m, cx.rng.range(0, m - 1)) }
+        9 | 10 => Pre::Map(cx.rng.range(-3, 3), cx.rng.range(-5, 5)),
+        _ => Pre::Dup(cx.rng.range(1, 4)),
     }
 }
 fn partition_choices(n: usize) -> Vec<usize> {
@@ -569,38 +933,208 @@ fn partition_choices(n: usize) -> Vec<usize> {
     v
 }
 
+/* ---- seeds whose i-th draw (i <= 4) is m = 0, so that `add_input` takes its `u == 0.0` branch ----
+   SplitMix64's output function is a bijection; `create` starts the state at seed * 0xA24BAED40B9C497C (all
+   multiples of 4 are reachable), draw i uses state s0 + i*gamma. Solve for the seed. */
+fn inv_odd(a: u64) -> u64 { let mut x = a; for _ in 0..6 { x = x.wrapping_mul(2u64.wrapping_sub(a.wrapping_mul(x))); } x }
+fn unmix(mut z: u64) -> u64 {
+    fn unxs(z: u64, s: u32) -> u64 { let mut x = z; let mut i = s; while i < 64 { x = z ^ (x >> s); i += s; } x }
+    z = unxs(z, 31);
+    z = z.wrapping_mul(inv_odd(0x94D0_49BB_1331_11EB));
+    z = unxs(z, 27);
+    z = z.wrapping_mul(inv_odd(0xBF58_476D_1CE4_E5B9));
+    unxs(z, 30)
+}
+/// `(seed, i)`: the i-th `next_u64()` of an accumulator created with `seed` is `z` (for `z < 2048`: m = 0)
+fn seed_with_draw(z: u64) -> Option<(u64, usize)> {
+    const GAMMA: u64 = 0x9E37_79B9_7F4A_7C15;
+    const C: u64 = 0xA24B_AED4_0B9C_497C;
+    let t = unmix(z);
+    for i in 1..=4u64 {
+        let s0 = t.wrapping_sub(GAMMA.wrapping_mul(i));
+        if s0 % 4 == 0 {
+            let seed = (s0 / 4).wrapping_mul(inv_odd(C / 4));
+            if seed.wrapping_mul(C) == s0 { return Some((seed, i as usize)); }
+        }
+    }
+    None
+}
+
+fn big_rows(n: usize, nkeys: i64) -> (Vec<i64>, Vec<(i64, i64)>) {
+    let vals: Vec<i64> = (0..n as i64).map(|i| (i * 37 + 11) % 101).collect();
+    // skewed keys: key 0 takes every other row, the rest rotate
+    let rows: Vec<(i64, i64)> = vals.iter().enumerate().map(|(i, v)| (if i % 2 == 0 { 0 } else { 1 + (i as i64 / 2) % (nkeys - 1).max(1) }, *v)).collect();
+    (vals, rows)
+}
+
+/// inputs beyond the 60-row scope: stores >= 64 slots, k in {63, 64, 65, 100, 1000}, > 61 accumulators per merge
+fn big_block(cx: &mut Ctx) {
+    let ns = [64usize, 65, 127, 128, 257, 1000];
+    let ks = [63usize, 64, 65, 100, 1000];
+    let parts = [1usize, 2, 3, 5, 65, 128];
+    let mut c = 0usize;
+    for (ix, n) in ns.iter().enumerate() {
+        let (vals, rows) = big_rows(*n, 3);
+        for j in 0..scope(cx, 2, 5, 3) {
+            let k = ks[(ix + 2 * j) % ks.len()];
+            let e = ENTRIES[(ix + j) % 4];
+            one_pipe(cx, e, k, 42 + j as u64, &parts, Pre::Id, false, &vals, &rows);
+            c += 1;
+        }
+    }
+    // skewed partitions of big chunks behind a filter, and the join side
+    let (vals, rows) = big_rows(300, 4);
+    one_pipe(cx, Entry::GVec, 64, 7, &[2, 3, 4], Pre::Ge(40), false, &vals, &rows);
+    one_pipe(cx, Entry::KVec, 65, 7, &[2, 3, 4], Pre::Mod(3, 1), false, &vals, &rows);
+    one_pipe(cx, Entry::KVec, 100, 7, &[2, 4, 150], Pre::Id, true, &vals, &rows);
+    one_pipe(cx, Entry::GFlat, 70, 7, &[2, 4, 150], Pre::Id, true, &vals, &rows);
+    c += 4;
+    // the combiner directly: leaves of >= 64 rows under three tree shapes; 70 accumulators in one merge chain
+    let (v256, _) = big_rows(256, 3);
+    for (k, seed) in [(64usize, 1u64), (65, 42), (200, 7), (300, 0)] {
+        let four = cut_sizes(&v256, &[64, 64, 65, 63]);
+        one_reservoir_opt(cx, k, seed, &four, &left_comb(4), true);
+        one_reservoir(cx, k, seed, &four, &balanced(0, 4));
+        one_reservoir(cx, k, seed, &four, &right_comb(0, 4));
+        one_reservoir(cx, k, seed, &four, &lift_all(&balanced(0, 4)));
+        c += 5;
+    }
+    let (v140, _) = big_rows(140, 3);
+    let seventy = cut_sizes(&v140, &vec![2; 70]);
+    for k in [1usize, 64, 69, 140] {
+        one_reservoir(cx, k, 42, &seventy, &left_comb(70));
+        one_reservoir(cx, k, 42, &seventy, &balanced(0, 70));
+        c += 2;
+    }
+    // huge k that is not usize::MAX
+    one_reservoir(cx, usize::MAX - 1, 3, &cut_sizes(&v140, &[70, 70]), &left_comb(2));
+    one_reservoir(cx, 1usize << 32, 3, &cut_sizes(&v140, &[70, 70]), &left_comb(2));
+    one_pipe(cx, Entry::KFlat, usize::MAX - 1, 3, &[2, 3], Pre::Id, false, &v140, &big_rows(140, 3).1);
+    c += 3;
+    cx.exhaustive_blocks.push(format!("beyond 60 rows (fixed corpus, every tier): n in {{64,65,127,128,257,1000}} x k in {{63,64,65,100,1000}} x partitions {{1,2,3,5,65,128}} rotating over the 4 entry points; filters / join side at n = 300; combiner leaves of 63-65 rows under left-comb / balanced / right-comb / all-lifted trees; 70 accumulators per merge; k = 2^32, usize::MAX-1 ({c} requests)"));
+
+    // oracle only (no model request: the model is quadratic): 70 000 rows in ONE accumulator (seq, 1 and 2 partitions)
+    let n = 70_000usize;
+    let vals: Vec<i64> = (0..n as i64).map(|i| (i * 7919) % 10_007).collect();
+    let rows: Vec<(i64, i64)> = vals.iter().map(|v| (0, *v)).collect();
+    let head: Vec<i64> = vals[..8].to_vec();
+    let anchor = one_pipe(cx, Entry::GVec, 10, 99, &[1], Pre::Id, false, &head, &[]).case;
+    for e in [Entry::GVec, Entry::KFlat] {
+        for m in [Mode::Seq, Mode::Par(1), Mode::Par(2)] {
+            let (o, _) = run_entry(e, 10, 99, m, Pre::Id, false, &vals, &rows);
+            let (o2, _) = run_entry(e, 10, 99, m, Pre::Id, false, &vals, &rows);
+            cx.count("big:70000-rows-oracle-only-runs");
+            check_one(cx, anchor, e, 10, &format!("[oracle-only run, n = {n}, {m:?}]"), &o, &vals, &rows);
+            if o != o2 { cx.oracle_fail(anchor, "sample-not-reproducible", format!("{} n={n} {m:?}: {} then {}", e.name(), o.enc(), o2.enc())); }
+            if m == Mode::Par(1) {
+                let (s, _) = run_entry(e, 10, 99, Mode::Seq, Pre::Id, false, &vals, &rows);
+                if s != o { cx.oracle_fail(anchor, "single-partition-run-differs-from-sequential", format!("{} n={n}: seq {} but p1 {}", e.name(), s.enc(), o.enc())); }
+            }
+        }
+    }
+}
+
+fn boundary_bits() -> Vec<u64> {
+    vec![
+        0, 1, 2, 0x000F_FFFF_FFFF_FFFF, 0x0010_0000_0000_0000,       // +0, smallest subnormals, largest subnormal, smallest normal
+        0x3CA0_0000_0000_0000, 0x3CA0_0000_0000_0001,                // 2^-53 (m = 1) and its successor
+        0x3FDF_FFFF_FFFF_FFFF, 0x3FE0_0000_0000_0000, 0x3FE0_0000_0000_0001, // around 0.5
+        0x3FEF_FFFF_FFFF_FFFF, 0x3FF0_0000_0000_0000,                // 1 - 2^-53 (m = 2^53 - 1), 1.0
+        0x7FF0_0000_0000_0000, 0x7FF8_0000_0000_0000,                // +inf, NaN
+        0x8000_0000_0000_0000, 0x8000_0000_0000_0001, 0xBFE0_0000_0000_0000, 0xFFF8_0000_0000_0000, // -0, -subnormal, -0.5, -NaN
+    ]
+}
+
 pub fn run(cx: &mut Ctx) {
+    install_plan_hook();
+    run_inner(cx);
+    remove_plan_hook();
+}
+
+fn scope(cx: &Ctx, quick: usize, thorough: usize, search: usize) -> usize {
+    match cx.tier { crate::ctx::Tier::Quick => quick, crate::ctx::Tier::Thorough => thorough, crate::ctx::Tier::Search => search }
+}
+
+fn run_inner(cx: &mut Ctx) {
     /* (1) corpus: the design-time witness of the known finding and boundary cases */
     let w: Vec<i64> = (0..20).collect();
     let wk: Vec<(i64, i64)> = w.iter().map(|v| (v % 2, *v)).collect();
+    let six: [(i64, i64); 6] = [(0, 0), (1, 5), (0, 1), (1, 6), (0, 2), (1, 7)];
     for e in ENTRIES {
-        one_pipe(cx, e, 5, 42, &[0, 1, 2, 3, 4, 20, 21], None, &w, &wk);
-        one_pipe(cx, e, 0, 42, &[1, 3], None, &w, &wk);
-        one_pipe(cx, e, 20, 42, &[1, 3], None, &w, &wk);
-        one_pipe(cx, e, 21, 42, &[1, 3], None, &w, &wk);
-        one_pipe(cx, e, 3, 7, &[0, 1, 2], None, &[], &[]);
-        one_pipe(cx, e, usize::MAX, u64::MAX, &[1, 3, 64], None, &w, &wk); // largest k and seed
-        // a filter in front of the sample: even thinning, only the first / only the last partitions keep
-        // anything, nothing kept, everything kept
-        for f in [Filt::Mod(2, 0), Filt::Lt(5), Filt::Ge(15), Filt::Lt(12), Filt::None, Filt::All] {
-            one_pipe(cx, e, 5, 42, &[0, 1, 2, 3, 4, 19, 20, 21], Some(f), &w, &wk);
+        let r = one_pipe(cx, e, 5, 42, &[0, 1, 2, 3, 4, 20, 21], Pre::Id, false, &w, &wk);
+        typed_and_auto(cx, &r, e, 5, 42, Pre::Id, &w, &wk);
+        one_pipe(cx, e, 0, 42, &[1, 3], Pre::Id, false, &w, &wk);
+        one_pipe(cx, e, 20, 42, &[1, 3], Pre::Id, false, &w, &wk);
+        one_pipe(cx, e, 21, 42, &[1, 3], Pre::Id, false, &w, &wk);
+        one_pipe(cx, e, 3, 7, &[0, 1, 2], Pre::Id, false, &[], &[]);
+        one_pipe(cx, e, usize::MAX, u64::MAX, &[1, 3, 64], Pre::Id, false, &w, &wk); // largest k and seed
+        // a stateless op in front of the sample: even thinning, only the first / only the last partitions keep
+        // anything, nothing kept, everything kept, a map, a flat_map that deletes / duplicates
+        for f in [Pre::Mod(2, 0), Pre::Lt(5), Pre::Ge(15), Pre::Lt(12), Pre::Nothing, Pre::All, Pre::Map(-2, 3), Pre::Dup(3)] {
+            let r = one_pipe(cx, e, 5, 42, &[0, 1, 2, 3, 4, 19, 20, 21], f, false, &w, &wk);
+            if matches!(f, Pre::Lt(12) | Pre::Dup(3)) { typed_and_auto(cx, &r, e, 5, 42, f, &w, &wk); }
         }
-        one_pipe(cx, e, 3, 7, &[0, 1, 2], Some(Filt::All), &[], &[]);
-        one_pipe(cx, e, 1, 42, &[1, 2, 3, 6, 7], Some(Filt::Mod(2, 0)), &[0, 1, 2, 3, 4, 5], &[(0, 0), (1, 5), (0, 1), (1, 6), (0, 2), (1, 7)]); // Lean: filter_seq_ne_par
-        one_pipe(cx, e, 1, 42, &[1, 2, 3, 6, 7], None, &[0, 1, 2], &[(0, 0), (1, 5), (0, 1), (1, 6), (0, 2), (1, 7)]); // Lean: seq_ne_par, keyed_seq_ne_par
+        one_pipe(cx, e, 3, 7, &[0, 1, 2], Pre::All, false, &[], &[]);
+        one_pipe(cx, e, 1, 42, &[1, 2, 3, 6, 7], Pre::Mod(2, 0), false, &[0, 1, 2, 3, 4, 5], &six); // Lean: filter_seq_ne_par
+        one_pipe(cx, e, 1, 42, &[1, 2, 3, 6, 7], Pre::Id, false, &[0, 1, 2], &six); // Lean: seq_ne_par, keyed_seq_ne_par
+        // the sample as a join input: the join side's chain runs un-planned (GroupByKey barrier + local_groups)
+        if e != Entry::GVec {
+            one_pipe(cx, e, 5, 42, &[0, 1, 2, 3, 4, 20, 21], Pre::Id, true, &w, &wk);
+            one_pipe(cx, e, 1, 42, &[1, 2, 3, 6, 7], Pre::Id, true, &[0, 1, 2], &six); // Lean: keyed_unlifted_eq_seq_witness
+            one_pipe(cx, e, 0, 42, &[1, 3], Pre::Id, true, &w, &wk);
+            one_pipe(cx, e, 25, 42, &[1, 3], Pre::Lt(12), true, &w, &wk);
+            one_pipe(cx, e, 3, 7, &[0, 2], Pre::Id, true, &[], &[]);
+        }
     }
     one_reservoir(cx, usize::MAX, 0, &cut_sizes(&w, &[7, 7, 6]), &left_comb(3));
-    one_reservoir(cx, 5, 42, &[w.clone()], &Shape::Leaf(0, false));
-    one_reservoir(cx, 5, 42, &cut_sizes(&w, &[5, 5, 5, 5]), &left_comb(4));
-    one_reservoir(cx, 5, 42, &cut_sizes(&w, &[7, 7, 6]), &left_comb(3));
+    one_reservoir_opt(cx, 5, 42, &[w.clone()], &Shape::Leaf(0, false), true);
+    one_reservoir_opt(cx, 5, 42, &cut_sizes(&w, &[5, 5, 5, 5]), &left_comb(4), true);
+    one_reservoir_opt(cx, 5, 42, &cut_sizes(&w, &[7, 7, 6]), &left_comb(3), true);
+    // in-order leaves under three tree shapes (audit-D driver probes)
+    let twelve: Vec<i64> = (0..12).collect();
+    for (k, seed, sizes) in [(3usize, 42u64, [3usize, 3, 3, 3]), (5, 7, [2, 4, 3, 3])] {
+        let parts = cut_sizes(&twelve, &sizes);
+        for sh in [left_comb(4), balanced(0, 4), right_comb(0, 4)] { one_reservoir_opt(cx, k, seed, &parts, &sh, true); }
+    }
     // systematic ties (same priority and seq in every partition): equal-size leaves of identical values
-    one_reservoir(cx, 2, 1, &cut_sizes(&[1, 2, 3, 1, 2, 3, 1, 2, 3], &[3, 3, 3]), &left_comb(3));
-    one_reservoir(cx, 3, 1, &cut_sizes(&[1, 2, 3, 1, 2, 3], &[3, 3]), &Shape::Node(Box::new(Shape::Leaf(1, false)), Box::new(Shape::Leaf(0, true))));
+    one_reservoir_opt(cx, 2, 1, &cut_sizes(&[1, 2, 3, 1, 2, 3, 1, 2, 3], &[3, 3, 3]), &left_comb(3), true);
+    one_reservoir_opt(cx, 3, 1, &cut_sizes(&[1, 2, 3, 1, 2, 3], &[3, 3]), &Shape::Node(Box::new(Shape::Leaf(1, false)), Box::new(Shape::Leaf(0, true))), true);
+    // the `u == 0.0` branch of add_input: seeds whose i-th draw has its top 53 bits clear (m = 0)
+    let mut zero_seeds = 0usize;
+    for z in [0u64, 1, 5, 2047] {
+        if let Some((seed, i)) = seed_with_draw(z) {
+            zero_seeds += 1;
+            let six_v: Vec<i64> = (0..6).collect();
+            one_reservoir_opt(cx, 10, seed, &[six_v.clone()], &Shape::Leaf(0, false), true); // nothing evicted: all 6 priorities visible
+            one_reservoir_opt(cx, 2, seed, &[six_v.clone()], &Shape::Leaf(0, false), true);
+            one_reservoir_opt(cx, 3, seed, &cut_sizes(&six_v, &[i, 6 - i]), &left_comb(2), true);
+            one_reservoir_opt(cx, 4, seed, &cut_sizes(&six_v, &[3, 3]), &Shape::Node(Box::new(Shape::Leaf(1, true)), Box::new(Shape::Leaf(0, false))), true);
+            for e in ENTRIES { one_pipe(cx, e, 3, seed, &[1, 2, 3], Pre::Id, false, &six_v, &six); }
+        }
+    }
+    cx.count_n("corpus:seeds-with-a-zero-priority-draw", zero_seeds as u64);
+    // OrdF64::cmp is f64::total_cmp (the model orders priorities by their 53-bit integers, `prioBits` maps them to
+    // the stored bit patterns): all pairs of boundary patterns, neighbours of real priorities
+    let bb = boundary_bits();
+    for a in &bb { for b in &bb { one_ord(cx, *a, *b); } }
+    for m in [1u64, 2, 3, (1 << 52) - 1, 1 << 52, (1 << 52) + 1, (1 << 53) - 2, (1 << 53) - 1, 0x000A_BCDE_F012_3456] {
+        let u = (m as f64) * (1.0 / ((1u64 << 53) as f64));
+        let b = u.to_bits();
+        for d in [1u64, 2, 1000, 4_000_000] { one_ord(cx, b, b + d); one_ord(cx, b + d, b); }
+    }
+    // a sample taken after a hash-ordered barrier
+    let gr: Vec<(i64, i64)> = (0..12).map(|i| (i % 6, i)).collect();
+    for k in [0usize, 1, 2, 5, 6, 7] {
+        for (seed, mode) in [(42u64, Mode::Seq), (7, Mode::Par(3))] { one_gbk(cx, k, seed, mode, &gr); }
+    }
+    // beyond 60 rows
+    big_block(cx);
 
     /* (2) exhaustive small scope */
     // (2a) the combiner: every n <= N, every split into <= 3 (possibly empty) leaves, every tree shape over
-    //      every leaf order, every k in 0..=n+1, two seeds; values with duplicates
-    let nmax = cx.budget(4, 7);
+    //      every leaf order, every k in 0..=n+1, two seeds; values with duplicates. Seed 42: also with every leaf
+    //      built by build_from_group, and with the accumulator state compared.
+    let nmax = scope(cx, 4, 7, 5);
     let mut n_ex = 0usize;
     for n in 0..=nmax {
         let vals: Vec<i64> = (0..n as i64).map(|i| (i * 7 + 3) % 3).collect();
@@ -609,19 +1143,20 @@ pub fn run(cx: &mut Ctx) {
             for sizes in compositions(n, m) {
                 let parts = cut_sizes(&vals, &sizes);
                 for sh in &shapes {
+                    let lifted = lift_all(sh);
                     for k in 0..=n + 1 {
-                        for seed in [0u64, 42] {
-                            one_reservoir(cx, k, seed, &parts, sh);
-                            n_ex += 1;
-                        }
+                        one_reservoir(cx, k, 0, &parts, sh);
+                        one_reservoir_opt(cx, k, 42, &parts, sh, true);
+                        one_reservoir(cx, k, 42, &parts, &lifted);
+                        n_ex += 4;
                     }
                 }
             }
         }
     }
-    cx.exhaustive_blocks.push(format!("combiner: n <= {nmax} x all splits into <= 3 possibly-empty leaves x all merge trees over all leaf orders x k in 0..=n+1 x seeds {{0,42}} ({n_ex} cases)"));
-    // (2b) the pipelines: every n <= N, every k in 0..=n+1, all four entry points, seq + every partition count 1..=n+2
-    let pmax = cx.budget(6, 12);
+    cx.exhaustive_blocks.push(format!("combiner: n <= {nmax} x all splits into <= 3 possibly-empty leaves x all merge trees over all leaf orders x k in 0..=n+1 x seeds {{0,42}}; seed 42 also with every leaf lifted (build_from_group) and with the accumulator state (priority bit patterns, seq, tombstones, alive, heap length) compared ({n_ex} requests)"));
+    // (2b) the pipelines: every n <= N, every k in 0..=n+1, all four entry points, seq + every partition count 0..=n+2
+    let pmax = scope(cx, 6, 12, 8);
     let mut p_ex = 0usize;
     for n in 0..=pmax {
         let vals: Vec<i64> = (0..n as i64).map(|i| (i * 5 + 1) % 4).collect();
@@ -630,41 +1165,60 @@ pub fn run(cx: &mut Ctx) {
         for k in 0..=n + 1 {
             for seed in [0u64, 1, 42] {
                 for e in ENTRIES {
-                    one_pipe(cx, e, k, seed, &parts, None, &vals, &rows);
+                    one_pipe(cx, e, k, seed, &parts, Pre::Id, false, &vals, &rows);
                     p_ex += 1;
                 }
             }
         }
     }
     cx.exhaustive_blocks.push(format!("pipelines: n <= {pmax} x k in 0..=n+1 x seeds {{0,1,42}} x 4 entry points x seq + partitions 0..=n+2 ({p_ex} requests)"));
-    // (2c) a filter in front of the sample: every n <= N (values = positions, so `lt`/`ge` keep a prefix / a
-    //      suffix and whole partitions become empty), every prefix, every suffix, three residue classes,
-    //      every k in 0..=n+1, all four entry points, seq + every partition count 0..=n+2
-    let fmax = cx.budget(4, 8);
+    // (2c) a stateless op in front of the sample: every n <= N (values = positions, so `lt`/`ge` keep a prefix / a
+    //      suffix and whole partitions become empty), every prefix, every suffix, three residue classes, a map, a
+    //      deleting/duplicating flat_map, every k in 0..=n+1, all four entry points, seq + every partition count 0..=n+2
+    let fmax = scope(cx, 4, 8, 5);
     let mut f_ex = 0usize;
     for n in 0..=fmax {
         let vals: Vec<i64> = (0..n as i64).collect();
         let rows: Vec<(i64, i64)> = vals.iter().map(|v| ((v * 3 + 1) % 2, *v)).collect();
         let parts: Vec<usize> = (0..=n + 2).collect();
-        let mut filts: Vec<Filt> = vec![Filt::Mod(2, 0), Filt::Mod(2, 1), Filt::Mod(3, 1)];
-        for c in 0..=n as i64 { filts.push(Filt::Lt(c)); filts.push(Filt::Ge(c)); }
-        for f in &filts {
-            for k in 0..=n + 1 {
+        let mut pres: Vec<Pre> = vec![Pre::Mod(2, 0), Pre::Mod(2, 1), Pre::Mod(3, 1), Pre::Map(2, 1), Pre::Dup(3)];
+        for c in 0..=n as i64 { pres.push(Pre::Lt(c)); pres.push(Pre::Ge(c)); }
+        for f in &pres {
+            let kmax = if matches!(f, Pre::Dup(_)) { 2 * n + 1 } else { n + 1 };
+            for k in 0..=kmax {
                 for e in ENTRIES {
-                    one_pipe(cx, e, k, 42, &parts, Some(*f), &vals, &rows);
+                    one_pipe(cx, e, k, 42, &parts, *f, false, &vals, &rows);
                     f_ex += 1;
                 }
             }
         }
     }
-    cx.exhaustive_blocks.push(format!("pipelines with filter before the sample: n <= {fmax} (values = positions) x every prefix (lt) / suffix (ge) / residue classes mod 2, mod 3 x k in 0..=n+1 x seed 42 x 4 entry points x seq + partitions 0..=n+2 ({f_ex} requests)"));
+    cx.exhaustive_blocks.push(format!("pipelines with a stateless op before the sample: n <= {fmax} (values = positions) x every prefix (lt) / suffix (ge) / residue classes mod 2, mod 3 / map 2x+1 / flat_map (x mod 3 copies) x k in 0..=n+1 (dup: 0..=2n+1) x seed 42 x 4 entry points x seq + partitions 0..=n+2 ({f_ex} requests)"));
+    // (2d) the sample as a join input (un-planned join side): every n <= N, every k, seq + every partition count
+    let jmax = scope(cx, 4, 7, 5);
+    let mut j_ex = 0usize;
+    for n in 0..=jmax {
+        let vals: Vec<i64> = (0..n as i64).map(|i| (i * 5 + 1) % 4).collect();
+        let rows: Vec<(i64, i64)> = vals.iter().enumerate().map(|(i, v)| ((i as i64 * 3 + 1) % 2, *v)).collect();
+        let parts: Vec<usize> = (0..=n + 2).collect();
+        for k in 0..=n + 1 {
+            for e in [Entry::GFlat, Entry::KVec, Entry::KFlat] {
+                one_pipe(cx, e, k, 42, &parts, Pre::Id, true, &vals, &rows);
+                j_ex += 1;
+            }
+        }
+    }
+    cx.exhaustive_blocks.push(format!("sample feeding join_inner: n <= {jmax} x k in 0..=n+1 x seed 42 x (sample_reservoir, sample_values_reservoir_vec, sample_values_reservoir) x seq + partitions 0..=n+2 ({j_ex} requests)"));
 
-    /* (3) random: inputs <= 60 with duplicates */
-    let rounds = cx.budget(4000, 80000);
+    /* (3) random */
+    // search tier: 10x the quick rounds under a different seed (the exhaustive blocks stay small)
+    let rounds = scope(cx, 4000, 80000, 40000);
     for r in 0..rounds {
-        let n = match cx.rng.below(6) { 0 => cx.rng.below(4), 1 => 60, _ => cx.rng.below(61) };
+        // thorough / search tier: one round in 20 beyond the 60-row scope
+        let big = cx.tier != crate::ctx::Tier::Quick && r % 20 == 7;
+        let n = if big { 61 + cx.rng.below(if r % 200 == 7 { 940 } else { 260 }) } else { match cx.rng.below(6) { 0 => cx.rng.below(4), 1 => 60, _ => cx.rng.below(61) } };
         let vals = gen_values(cx, n);
-        let k = gen_k(cx, n);
+        let k = if big && cx.rng.chance(1, 2) { *cx.rng.pick(&[63usize, 64, 65, 100]) } else { gen_k(cx, n) };
         let seed = gen_seed(cx);
         // the combiner on a random split and a random tree over a random leaf order
         let m = 1 + cx.rng.below(6);
@@ -682,24 +1236,39 @@ pub fn run(cx: &mut Ctx) {
             for i in (1..order.len()).rev() { let j = cx.rng.below(i + 1); order.swap(i, j); }
         }
         let sh = if cx.rng.chance(1, 3) { left_comb(parts.len()) } else { gen_tree(cx, &order) };
-        one_reservoir(cx, k, seed, &parts, &sh);
+        one_reservoir_opt(cx, k, seed, &parts, &sh, r % 4 == 2);
         // one pipeline entry point (rotating), seq + three partition counts
         let e = ENTRIES[r % 4];
-        let choices = partition_choices(n);
+        let mut choices = partition_choices(n);
+        if big { choices.extend([5, 65, 128]); }
         let mut ps: Vec<usize> = (0..3).map(|_| *cx.rng.pick(&choices)).collect();
         ps.sort();
         ps.dedup();
-        // every other round: a filter in front of the sample; half of those on ascending values, so that the
+        // every other round: a stateless op in front of the sample; half of those on ascending values, so that the
         // kept rows are a prefix / suffix and the partitions are empty or skewed
-        let filt = if (r / 4) % 2 == 1 { Some(gen_filt(cx, &vals)) } else { None };
+        let pre = if (r / 4) % 2 == 1 { gen_pre(cx, &vals) } else { Pre::Id };
         let mut vals = vals;
-        if filt.is_some() && cx.rng.chance(1, 2) { vals.sort(); }
+        if pre != Pre::Id && cx.rng.chance(1, 2) { vals.sort(); }
         let rows = keyed_rows(cx, &vals);
-        // k relative to the number of KEPT rows half of the time
-        let k = match filt {
-            Some(f) if cx.rng.chance(1, 2) => { let kept = vals.iter().filter(|x| f.keep(**x)).count(); gen_k(cx, kept) }
-            _ => k,
-        };
-        one_pipe(cx, e, k, seed, &ps, filt, &vals, &rows);
+        // k relative to the number of rows that reach the sampler half of the time
+        let k = if pre != Pre::Id && cx.rng.chance(1, 2) { let kept: usize = vals.iter().map(|x| pre.apply(*x).len()).sum(); gen_k(cx, kept) } else { k };
+        // one round in 8: the sample feeds a join (not for sample_reservoir_vec)
+        let join = (r / 8) % 8 == 3 && e != Entry::GVec;
+        let res = one_pipe(cx, e, k, seed, &ps, pre, join, &vals, &rows);
+        if r % 32 == 5 && !join { typed_and_auto(cx, &res, e, k, seed, pre, &vals, &rows); }
+        if r % 16 == 9 {
+            let nk = 1 + cx.rng.below(12);
+            let gr: Vec<(i64, i64)> = (0..n.min(30)).map(|i| (cx.rng.below(nk) as i64, i as i64)).collect();
+            let mode = if cx.rng.chance(1, 2) { Mode::Seq } else { Mode::Par(1 + cx.rng.below(5)) };
+            let gk = gen_k(cx, nk.min(gr.len()));
+            one_gbk(cx, gk, seed, mode, &gr);
+        }
+        if r % 64 == 11 {
+            // neighbours of a real priority
+            let b = (((cx.rng.next_u64() >> 11) as f64) * (1.0 / ((1u64 << 53) as f64))).to_bits();
+            let d = 1 + cx.rng.below(3) as u64;
+            one_ord(cx, b, b.wrapping_add(d));
+            one_ord(cx, b.wrapping_add(d), b);
+        }
     }
 }
